@@ -46,6 +46,42 @@ Definition unreviewed_process_state : list pstate := filter (fun p => negb (ps_o
 Theorem no_unreviewed_process_state : unreviewed_process_state = [].
 Proof. vm_compute. reflexivity. Qed.
 
+(** every consensus-path function that publishes the per-transaction StateDB clears it on every exit after the publication
+    (justification [PSTxScoped] of NibiruBankKeeper.StateDB; premise of C01_tx_scoped_state_restart_independent) *)
+Definition unguarded_statedb_publishers : list (string * string * bool * scope) :=
+  filter (fun e => let '(_, _, guarded, sc) := e in scope_eqb sc ScopeConsensus && negb guarded) statedb_publishers.
+
+Theorem every_statedb_publisher_clears : unguarded_statedb_publishers = [].
+Proof. vm_compute. reflexivity. Qed.
+
+(** hence, for the publishing handlers found in the tree as it is now (message i = the i-th of them, failing early or
+    not, with or without a restart before it), restarts cannot change results through that pointer *)
+Definition consensus_publishers : list (string * string * bool * scope) :=
+  filter (fun e => let '(_, _, _, sc) := e in scope_eqb sc ScopeConsensus) statedb_publishers.
+
+Definition guard_of (i : nat) : bool :=
+  match nth_error consensus_publishers i with Some (_, _, g, _) => g | None => true end.
+
+Lemma guard_of_true i : guard_of i = true.
+Proof.
+  unfold guard_of. destruct (nth_error consensus_publishers i) as [[[[pkg fn] g] sc]|] eqn:E; auto.
+  apply nth_error_In in E. unfold consensus_publishers in E. apply filter_In in E as [Hin Hsc].
+  destruct g; auto. exfalso.
+  assert (H : In (pkg, fn, false, sc) unguarded_statedb_publishers).
+  { unfold unguarded_statedb_publishers. apply filter_In. split; auto. rewrite Hsc. reflexivity. }
+  rewrite every_statedb_publisher_clears in H. exact H.
+Qed.
+
+Theorem C01_current_tree_restart_independent :
+  forall (script : list (bool * nat * bool)),
+    let h := map (fun x => (fst (fst x), mk_hmsg (guard_of (snd (fst x))) (snd x))) script in
+    run_handlers false h = run_handlers false (no_restarts h).
+Proof.
+  intros script h. apply C01_tx_scoped_state_restart_independent.
+  unfold h. rewrite forallb_forall. intros x Hx. apply in_map_iff in Hx as [y [<- _]]. simpl. apply guard_of_true.
+Qed.
+Print Assumptions C01_current_tree_restart_independent.
+
 Definition current_cfg : cfg := cfg_of_facts map_sites toslice_uses.
 
 Theorem current_cfg_ok : cfg_ok current_cfg = true.
